@@ -68,7 +68,7 @@ def tcp_segment(rng, wild=False):
     if wild and rng.random() < 0.15:
         doff = rng.choice([0, 4, 5, 15, doff + 1, max(5, doff - 1)])
     hdr = struct.pack('>HHIIBBHHH', rng.randrange(65536), rng.randrange(65536), rng.randrange(1 << 32), rng.randrange(1 << 32),
-                      (doff << 4) | rng.randrange(2), rng.randrange(256), rng.randrange(65536), 0, rng.randrange(65536))
+                      ((doff & 15) << 4) | rng.randrange(2), rng.randrange(256), rng.randrange(65536), 0, rng.randrange(65536))
     payload = bytes(rng.randrange(256) for _ in range(rng.choice([0, 0, 1, 4, 20])))
     seg = hdr + bytes(region) + payload
     if wild and rng.random() < 0.2:
